@@ -102,6 +102,6 @@ def main():
     json.dump(m, open("/verif/MANIFEST.json", "w"), indent=1)
     print("checks:", len(checks), "not_applicable:", len(na))
 
-HOOK_COMMITS = []
+HOOK_COMMITS = ["0711bfcbaf85eb9d30e2f222488e58ef5879da27"]
 if __name__ == "__main__":
     main()
